@@ -253,24 +253,33 @@ def recordProof (st : HState) (i : String) (now : Int) (cut : Option Int)
     some { st with proofSoa := (zoneOf i, (se, gen, s, g)) :: st.proofSoa.filter (·.1 != zoneOf i),
                    proofNsec := (i, (ne, gen, p, g2)) :: st.proofNsec.filter (·.1 != i) }
 
-/-- `lookupDenialProof` + `denialProofResponse` for owner `i`. -/
-def synthReply (st : HState) (i : String) (now : Int) : Option (Reply × Int) :=
+/-- `lookupDenialProof` + `denialProofEvaluate` + `denialProofResponse` for owner `i`.  A lookup that
+finds the zone's SOA entry expired retires the whole zone (`denialProofPruneZone`): every proof
+entry of the zone goes with it, whatever lifetime it had left. -/
+def synthReply (st : HState) (i : String) (now : Int) : HState × Option (Reply × Int) :=
   -- reply pieces: "sz"/"s<k>" for the NSEC zone, "tz"/"t<k>" for the NSEC3 zone
-  let zt := if zoneOf i == "q" then "t" else "s"
+  let z := zoneOf i
+  let zt := if z == "q" then "t" else "s"
   let k := (i.drop 1).toString
-  match st.proofSoa.lookup (zoneOf i), st.proofNsec.lookup i with
-  | some (se, sgen, s, g), some (ne, ngen, _p, g2) =>
-    match synthServe se [ne] now with
-    | none => none
-    | some (ttl, exp) =>
-      let ns : List NsRec := [
-        { rid := (1000000 + sgen, 0), owner := zt ++ "z", ttl := ttl, kind := .soa s.a.toNat },
-        { rid := (1000000 + sgen, 1), owner := zt ++ "z", ttl := ttl, kind := .sig g.b },
-        -- an NSEC record carries its admission in its RDATA, an NSEC3 record does not (same RDATA again)
-        { rid := if zt == "t" then (4000000, k.toNat!) else (2000000 + ngen, 0), owner := zt ++ k, ttl := ttl, kind := .plain },
-        { rid := (2000000 + ngen, 1), owner := zt ++ k, ttl := ttl, kind := .sig g2.b }]
-      some ({ ns := ns, synth := some (i, ttl) }, exp)
-  | _, _ => none
+  match st.proofSoa.lookup z with
+  | none => (st, none)
+  | some (se, sgen, s, g) =>
+    if now ≥ se then
+      ({ st with proofSoa := st.proofSoa.filter (·.1 != z), proofNsec := st.proofNsec.filter (fun e => zoneOf e.1 != z) }, none)
+    else
+    match st.proofNsec.lookup i with
+    | none => (st, none)
+    | some (ne, ngen, _p, g2) =>
+      match synthServe se [ne] now with
+      | none => (st, none)
+      | some (ttl, exp) =>
+        let ns : List NsRec := [
+          { rid := (1000000 + sgen, 0), owner := zt ++ "z", ttl := ttl, kind := .soa s.a.toNat },
+          { rid := (1000000 + sgen, 1), owner := zt ++ "z", ttl := ttl, kind := .sig g.b },
+          -- an NSEC record carries its admission in its RDATA, an NSEC3 record does not (same RDATA again)
+          { rid := if zt == "t" then (4000000, k.toNat!) else (2000000 + ngen, 0), owner := zt ++ k, ttl := ttl, kind := .plain },
+          { rid := (2000000 + ngen, 1), owner := zt ++ k, ttl := ttl, kind := .sig g2.b }]
+        (st, some ({ ns := ns, synth := some (i, ttl) }, exp))
 
 def cutProofRecs (now : Int) (sTtl pTtl gTtl g2Ttl : Nat) (s g p g2 : Item) : List ProofRR :=
   [{ rr := { ttl := sTtl, kind := .soa s.a.toNat } }, { rr := { ttl := gTtl, kind := .rrsig (now + g.b * S) }, orig := g.a.toNat },
@@ -378,8 +387,8 @@ def serve (cfg : Cfg) (script : List (String × Spec)) (now : Int) :
     if name.startsWith "p" || name.startsWith "q" then
       if bypass then (st, none, m0) else
       match synthReply st name now with
-      | some (r, exp) => (st, some r, boundCut m0 (some exp))     -- boundRequestTo(ctx, proofExpires)
-      | none => (st, none, m0)
+      | (st, some (r, exp)) => (st, some r, boundCut m0 (some exp))     -- boundRequestTo(ctx, proofExpires)
+      | (st, none) => (st, none, m0)
     else
     match lookupSlots st name (ecs && !internal) now with
     | (st, some he) =>
@@ -651,8 +660,8 @@ def stepHist (st : State) (w : List String) : State × String :=
         | some t => ({ st with h := h }, "hit " ++ tok ++ "~" ++ toString t ++ " bound=" ++ showBound (boundCut none (some exp)))
     else if name.startsWith "p" || name.startsWith "q" then
       match synthReply h name now with
-      | some (r, exp) => ({ st with h := h }, "hit " ++ replyTokens r ++ " bound=" ++ showBound (boundCut none (some exp)))
-      | none => ({ st with h := h }, "miss")
+      | (h, some (r, exp)) => ({ st with h := h }, "hit " ++ replyTokens r ++ " bound=" ++ showBound (boundCut none (some exp)))
+      | (h, none) => ({ st with h := h }, "miss")
     else
       match tryKey h (name, false) now with
       | (h, none) => ({ st with h := h }, "miss")
